@@ -63,7 +63,7 @@ func (e *Encoder) encodeSubsection(sectionName string, s *Subsection) error {
 func (e *Encoder) encodeOptions(opts Options) error {
 	for _, o := range opts {
 		var value string
-		if strings.ContainsAny(o.Value, "#;\"\t\n\\") || strings.HasPrefix(o.Value, " ") || strings.HasSuffix(o.Value, " ") {
+		if strings.ContainsAny(o.Value, "#;\"\t\n\r\\") || strings.HasPrefix(o.Value, " ") || strings.HasSuffix(o.Value, " ") {
 			value = `"` + valueReplacer.Replace(o.Value) + `"`
 		} else {
 			value = o.Value
